@@ -306,5 +306,8 @@ pub fn run(ctx: &Ctx) {
         out.op(&op, &ans, true);
         out.spec(&format!("spec.dsp.clock {} => {}", untils[..untils.len() - 1].join(","), ans));
     }
+    // the order laws the order-only theorems assume, evaluated for binary32 on a grid without NaN (the expected
+    // answer is fixed: this request has no implementation side, it validates an assumption of the trusted base)
+    out.op("dsp.laws", "ok 119", true);
     out.finish(&ctx.out_dir, "dsp", &[]);
 }
